@@ -38,7 +38,7 @@ FINDINGS = {}
 
 PRIOS = [None, -3, -2, -1, 0, 1, 2, 3]
 DEFAULTS = [None, None, 0, 1, -1, 2, 5]
-P_ADD, P_REMOVE, P_RENAMED = 1, 2, 4
+P_ADD, P_REMOVE, P_RENAMED, P_POSONLY = 1, 2, 4, 8
 
 
 class AddFailed(Exception):
@@ -81,11 +81,15 @@ class ProcRec(EqByMode, desper.Processor):
         return '<%s#%d prio=%r>' % (type(self).__name__, self.ix, self.priority)
 
 
+def _process_positional_only(self, delta_time, /):
+    ProcRec.process(self, delta_time)
+
+
 def decode_class(p):
     # EV_EQ: processors with value semantics - equal-but-distinct instances of different classes
     ev = (0, 0, P_ADD | P_REMOVE, P_ADD, P_REMOVE, EV_EQ, EV_EQ | P_ADD | P_REMOVE,
-          P_RENAMED | P_ADD | P_REMOVE, P_RENAMED | P_ADD)[p % 9]
-    p //= 9
+          P_RENAMED | P_ADD | P_REMOVE, P_RENAMED | P_ADD, P_POSONLY, P_POSONLY | P_ADD | P_REMOVE)[p % 11]
+    p //= 11
     default = DEFAULTS[p % len(DEFAULTS)]
     p //= len(DEFAULTS)
     nb = (0, 1, 1, 2)[p % 4]
@@ -115,7 +119,7 @@ def decode_op(t):
 
 
 def strategy():
-    cls = worldops.packed(9 * len(DEFAULTS) * 4 * 36).map(decode_class)
+    cls = worldops.packed(11 * len(DEFAULTS) * 4 * 36).map(decode_class)
     op = st.tuples(st.integers(0, 10), worldops.packed(16 ** 4)).map(decode_op)
     return st.fixed_dictionaries({'classes': st.lists(cls, min_size=3, max_size=6),
                                   'ops': worldops.chunked(op, 40),
@@ -135,7 +139,10 @@ def run_case(case):
 
     def ns(i):
         pr = case['classes'][i].get('prio')
-        return {'priority': pr} if pr is not None else {}
+        d = {'priority': pr} if pr is not None else {}
+        if case['classes'][i].get('ev', 0) & P_POSONLY:
+            d['process'] = _process_positional_only     # a processor names (and takes) its parameter as it likes
+        return d
 
     classes, _ = build_dag(case['classes'], root=ProcRec, prefix='P', decorate=False, namespace=ns)
     for spec, cls in zip(case['classes'], classes):
